@@ -21,15 +21,15 @@ LAW = dict(EpsPct=30, C=4000, K=2500)
 ALLW, ALLC, ALLB = set(range(1, 31)), set(range(1, 31)), set(range(1, 14))
 NOB = dict(BlockUse=set(), Prefixes={0})
 TIERS = {
-    "quick": [dict(Sizes={4, 8, 16}, WrapUse=ALLW, ChainUse=ALLC, BreakUse={1, 2, 3, 4, 5, 6}, Pairs=False, ChainScale=4, PatternWraps={1, 2, 4, 6}, BlockUse=ALLB, Prefixes={0}),
+    "quick": [dict(Sizes={4, 8, 16}, WrapUse=ALLW, ChainUse=ALLC, BreakUse={1, 2, 3, 4, 5, 6, 7}, Pairs=False, ChainScale=4, PatternWraps={1, 2, 4, 6}, BlockUse=ALLB, Prefixes={0}),
               # the same constructs after a long flat statement list: what precedes a construct must not change its cost
               dict(Sizes={4, 8, 16}, WrapUse={1, 6, 11}, ChainUse=set(), BreakUse={1}, Pairs=False, ChainScale=1, PatternWraps=set(), BlockUse={1, 7, 9, 11}, Prefixes={3000}),
               # deep nesting at the interpreter's default recursion limit, through parse_string (entry = "default_limit")
               dict(Sizes={50, 100, 200, 400}, WrapUse={1, 2, 4}, ChainUse=set(), BreakUse={1}, Pairs=False, ChainScale=1, PatternWraps=set(), BlockUse={1}, Prefixes={0}, _reclimit=1000),
               # the same valid constructs with verbose tracing on (the option must not change how much is parsed)
               dict(Sizes={2, 4, 8}, WrapUse={1, 2, 6, 10, 20}, ChainUse={1, 6}, BreakUse={1}, Pairs=False, ChainScale=2, PatternWraps=set(), BlockUse={1}, Prefixes={0}, _verbose=True)],
-    "thorough": [dict(Sizes={4, 8, 16, 32}, WrapUse=ALLW, ChainUse=ALLC, BreakUse={1, 2, 3, 4, 5, 6}, Pairs=False, ChainScale=8, PatternWraps={1, 2, 4, 6}, BlockUse=ALLB, Prefixes={0}),
-                 dict(Sizes={3, 6, 12}, WrapUse={1, 2, 4, 5, 6, 7, 8, 9, 10, 11, 12, 15, 20, 25, 28}, ChainUse=set(), BreakUse={1, 3, 5, 6}, Pairs=True, ChainScale=1, PatternWraps={1, 2, 4, 6}, **NOB),
+    "thorough": [dict(Sizes={4, 8, 16, 32}, WrapUse=ALLW, ChainUse=ALLC, BreakUse={1, 2, 3, 4, 5, 6, 7}, Pairs=False, ChainScale=8, PatternWraps={1, 2, 4, 6}, BlockUse=ALLB, Prefixes={0}),
+                 dict(Sizes={3, 6, 12}, WrapUse={1, 2, 4, 5, 6, 7, 8, 9, 10, 11, 12, 15, 20, 25, 28}, ChainUse=set(), BreakUse={1, 3, 5, 6, 7}, Pairs=True, ChainScale=1, PatternWraps={1, 2, 4, 6}, **NOB),
                  dict(Sizes={4, 8, 16}, WrapUse={1, 2, 4, 6, 8, 11}, ChainUse=set(), BreakUse={1, 5}, Pairs=False, ChainScale=1, PatternWraps=set(), BlockUse=ALLB, Prefixes={3000, 6000}),
                  dict(Sizes={50, 100, 200, 400}, WrapUse={1, 2, 3, 4, 5, 6, 7, 11}, ChainUse=set(), BreakUse={1, 6}, Pairs=False, ChainScale=1, PatternWraps=set(), BlockUse={1, 7}, Prefixes={0}, _reclimit=1000),
                  dict(Sizes={2, 4, 8, 16}, WrapUse=ALLW, ChainUse={1, 5, 6, 11}, BreakUse={1}, Pairs=False, ChainScale=2, PatternWraps={1, 2}, BlockUse=ALLB, Prefixes={0}, _verbose=True)],
